@@ -1,4 +1,5 @@
-(** C05 obligation: parse_header_exact_v2.  For every valid version-2 header, XML declaration in single or double quotes,
+(** C05 obligation: parse_header_exact_v2.  For every valid version-2 header, XML declaration with each pseudo-attribute
+    (version, encoding, standalone) present in single or double quotes - chosen independently - or absent,
     any whitespace (line breaks or none) between XML declaration, OFX declaration and body, at most seven leading blank
     lines, and every body from '<' to '>' with optional trailing whitespace, UTF-8 encoded: parse_header returns the
     header's fields and the body followed by that trailing whitespace (the version-2 branch does not strip), i.e. exactly
